@@ -573,3 +573,11 @@ mod tests {
         assert_eq!(builder.ids[2][0][0], SystemId(2));
     }
 }
+
+#[cfg(feature = "verif-hooks")]
+impl Stage<'_> {
+    /// Verification hook (read-only): number of boxed systems in every group.
+    pub(crate) fn verif_group_lens(&self) -> Vec<usize> {
+        self.groups.iter().map(|g| g.len()).collect()
+    }
+}
